@@ -20,6 +20,16 @@ let pm_handle args =
   let out = apply_swaps pairs (List.map (fun w -> zi (int_of_string w)) row) in
   ps ^ " | " ^ String.concat " " (List.map (fun z -> string_of_int (iz z)) out)
 let handle cmd args : string option =
+  if cmd = "rx" then
+    (* rx r00..r22 | h k l ...: the rows Mtz::reindex keeps, with their new indices (model Move/ReindexRows.v) *)
+    (match List.map int_of_string (List.filter (fun w -> w <> "|") (words args)) with
+     | a :: b :: c :: d :: e :: f :: g :: h :: i :: rest ->
+       let z = zi in
+       let x = { rot = ((((z a, z b), z c), ((z d, z e), z f)), ((z g, z h), z i)) ; tran = ((z 0, z 0), z 0); nota = z 120 } in
+       let rec triples = function p :: q :: r :: t -> ((z p, z q), z r) :: triples t | _ -> [] in
+       let kept = reindex_rows x (triples rest) in
+       Some (String.concat " " (string_of_int (List.length kept) :: List.map v3s kept))
+     | _ -> None) else
   if cmd = "pm" then Some (pm_handle args) else
   match cmd, List.map int_of_string (words args) with
   | "move", [row; tnt; h; k; l] ->
